@@ -50,6 +50,8 @@ class Builder(Harness):
             for b in range(n):
                 if tier == "quick":
                     out.append({"tasks": [a, b], "edges": 1, "maxpos": 0, "nokw": True})
+                    if a == b:
+                        out.append({"tasks": [a, b], "edges": 0, "maxpos": 2, "nvalues": 2, "nokw": True, "rebind": True})
                     if a <= b:
                         base = {"tasks": [a, b], "edges": 0, "maxpos": 2 if a == b else 1, "nvalues": 3}
                         if a == b:
@@ -102,6 +104,16 @@ class Builder(Harness):
                     if tb.static_input_ps != {} or any(k in kw and tb.static_input_kw.get(k, inspect.Parameter.empty) is not kwparams_default(kwparams, k) for k in kw):
                         raise Violation("with_values-mutated-original", f.__name__)
                     tb = tb2
+                    if ps and params.get("rebind") and i == 0 and ch.flag(f"rebind{i}"):
+                        # a pre-filled template specialised again: the new value is bound to the position given now (position 0)
+                        v2 = ch.choose(vals, f"ps{i}_again")
+                        try:
+                            tb = tb.with_values(v2)
+                        except Exception as e:
+                            raise Violation(f"with_values-raised-{type(e).__name__}", f"{f.__name__}: second with_values({v2!r}): {e}")
+                        if tb2.static_input_ps.get("0", tb2.static_input_ps.get(0)) is not ps[0] and tb2.static_input_ps.get("0", tb2.static_input_ps.get(0)) != ps[0]:
+                            raise Violation("with_values-mutated-original", f"{f.__name__}: rebinding changed the builder it was derived from")
+                        ps = [v2] + ps[1:]
                 tasks.append(tb)
                 bound_ps.append(ps)
                 bound_kw.append(kw)
